@@ -61,19 +61,19 @@ def runOp (s : Sexp) : String :=
     | some w, some d, some t => showRes toString (skip (d ++ t) w)
     | _, _, _ => "bad-op"
   -- codecs -------------------------------------------------------------------
-  | .list [.atom "build", .atom cfg, td, .atom tag, .atom depth] =>
-    match parseCfg cfg, parseTyDef td, parseHexStr tag with
+  | .list [.atom "build", cfgS, td, .atom tag, .atom depth] =>
+    match parseCfg cfgS, parseTyDef td, parseHexStr tag with
     | some c, some d, some t => showRes (showTyD (depth.toNat?.getD 99)) (buildTop c d t)
     | _, _, _ => "bad-op"
-  | .list [.atom "enc", .atom cfg, td, .atom tag, v] =>
-    match parseCfg cfg, parseTyDef td, parseHexStr tag, parseVal v with
+  | .list [.atom "enc", cfgS, td, .atom tag, v] =>
+    match parseCfg cfgS, parseTyDef td, parseHexStr tag, parseVal v with
     | some c, some d, some t, some v =>
       (match buildTop c d t with
        | .ok ty => "ok " ++ hexOf (marshal ty (coerceIn ty v))
        | e => showRes (fun _ => "") e)
     | _, _, _, _ => "bad-op"
-  | .list [.atom "dec", .atom cfg, td, .atom tag, .atom h, prior] =>
-    match parseCfg cfg, parseTyDef td, parseHexStr tag, parseHex h with
+  | .list [.atom "dec", cfgS, td, .atom tag, .atom h, prior] =>
+    match parseCfg cfgS, parseTyDef td, parseHexStr tag, parseHex h with
     | some c, some d, some t, some data =>
       (match buildTop c d t with
        | .ok ty =>
@@ -85,8 +85,8 @@ def runOp (s : Sexp) : String :=
           | none => "bad-op")
        | _ => "builderr")
     | _, _, _, _ => "bad-op"
-  | .list [.atom "rt", .atom cfg, td, .atom tag, v] =>
-    match parseCfg cfg, parseTyDef td, parseHexStr tag, parseVal v with
+  | .list [.atom "rt", cfgS, td, .atom tag, v] =>
+    match parseCfg cfgS, parseTyDef td, parseHexStr tag, parseVal v with
     | some c, some d, some t, some v =>
       (match buildTop c d t with
        | .ok ty =>
@@ -101,8 +101,8 @@ def runOp (s : Sexp) : String :=
        | _ => "builderr")
     | _, _, _, _ => "bad-op"
   -- (laws cfg tydef tag val xTAGBYTES): Size, Append, Read-consumed on the codec itself
-  | .list [.atom "laws", .atom cfg, td, .atom tag, v, .atom tb] =>
-    match parseCfg cfg, parseTyDef td, parseHexStr tag, parseVal v, parseHex tb with
+  | .list [.atom "laws", cfgS, td, .atom tag, v, .atom tb] =>
+    match parseCfg cfgS, parseTyDef td, parseHexStr tag, parseVal v, parseHex tb with
     | some c, some d, some t, some v, some tb =>
       (match buildTop c d t with
        | .ok ty =>
@@ -116,8 +116,8 @@ def runOp (s : Sexp) : String :=
     | _, _, _, _, _ => "bad-op"
   -- (encm cfg tydef tag val xIMPLBYTES): the implementation's bytes are an
   -- encoding of `val` up to map entry order
-  | .list [.atom "encm", .atom cfg, td, .atom tag, v, .atom h] =>
-    match parseCfg cfg, parseTyDef td, parseHexStr tag, parseVal v, parseHex h with
+  | .list [.atom "encm", cfgS, td, .atom tag, v, .atom h] =>
+    match parseCfg cfgS, parseTyDef td, parseHexStr tag, parseVal v, parseHex h with
     | some c, some d, some t, some v, some data =>
       (match buildTop c d t with
        | .ok ty =>
